@@ -28,7 +28,11 @@ type Engine struct {
 	// kept as an OBJ atom instead of being inlined.
 	IsCodecMethod func(fn *ssa.Function) bool
 	NonNilGlobals map[*ssa.Global]bool
-	paths         int
+	// UnrollMax > 0: every loop whose bound is a constant no larger than this is executed iteration by iteration
+	// (used to enumerate what start-up code does: registrations made by loops over literal tables)
+	UnrollMax int
+	InitMem   map[string]memEntry // memory the root starts with (cells captured by a function literal being evaluated)
+	paths     int
 	truncated     string
 }
 
@@ -180,6 +184,11 @@ type outcome struct {
 
 // AnalyzeRoot runs the engine on fn with symbolic parameters.
 func (e *Engine) AnalyzeRoot(fn *ssa.Function, args []*Val) ([]*Path, error) {
+	return e.AnalyzeRootFree(fn, args, nil)
+}
+
+// AnalyzeRootFree: like AnalyzeRoot, with the values the function literal fn captured (nil: symbolic).
+func (e *Engine) AnalyzeRootFree(fn *ssa.Function, args []*Val, free []*Val) ([]*Path, error) {
 	if fn.Blocks == nil {
 		return nil, fmt.Errorf("%s has no body", fn)
 	}
@@ -191,8 +200,15 @@ func (e *Engine) AnalyzeRoot(fn *ssa.Function, args []*Val) ([]*Path, error) {
 		}
 	}
 	st := newState()
+	for k, v := range e.InitMem {
+		st.mem[k] = v
+	}
 	fr := &frame{fn: fn, env: map[ssa.Value]*Val{}, args: args}
 	for i, fv := range fn.FreeVars {
+		if i < len(free) && free[i] != nil {
+			fr.free = append(fr.free, free[i])
+			continue
+		}
 		fr.free = append(fr.free, &Val{Op: "param", ID: 1000 + i, Name: fv.Name(), Type: fv.Type()})
 	}
 	outs := e.execFrom(st, fr, fn.Blocks[0], nil, 0)
@@ -833,6 +849,9 @@ func (e *Engine) unrollable(fr *frame, h *ssa.BasicBlock, body map[*ssa.BasicBlo
 		}
 	}
 	n, isC := e.val(fr, bo.Y).Int64()
+	if e.UnrollMax > 0 && isC && n >= 0 && n <= int64(e.UnrollMax) {
+		return true
+	}
 	if !isC || n < 0 || n > 16 {
 		return false
 	}
